@@ -39,12 +39,19 @@ class NumpySerializedList(collections.UserList):
         self._lst = [_serialize(x) for x in lst]
         self._addr = np.asarray([len(x) for x in self._lst], dtype=np.int64)
         self._addr = np.cumsum(self._addr)
-        self._lst = np.concatenate(self._lst)
+        self._lst = (
+            np.concatenate(self._lst) if len(self._lst)
+            else np.zeros(0, dtype=np.uint8)
+        )
 
     def __len__(self):
         return len(self._addr)
 
     def __getitem__(self, idx):
+        if idx < 0:
+            idx += len(self)
+            if idx < 0:
+                raise IndexError(idx - len(self))
         start_addr = 0 if idx == 0 else self._addr[idx - 1].item()
         end_addr = self._addr[idx].item()
         bytes = memoryview(self._lst[start_addr:end_addr])
